@@ -137,6 +137,7 @@ class SyncInterpreter(BaseInterpreter[TContext, TEvent]):
         #: Serialises the claim of the drain loop between the caller's thread
         #: and the engine's own timer / delayed-send / actor threads.
         self._drain_lock = threading.Lock()
+        self._stop_lock = threading.RLock()
         #: Events this machine queued onto itself during the current drain,
         #: and the thread running that drain.
         self._self_raised: int = 0
@@ -268,6 +269,26 @@ class SyncInterpreter(BaseInterpreter[TContext, TEvent]):
         and sets the interpreter's status to 'stopped', preventing further
         event processing. It's idempotent.
         """
+        # 🔒 One `stop()` at a time. An actor is stopped by whoever gets there
+        #    first: its parent's `stop()`, a `stopChild`, or its own actor
+        #    thread once it finishes. The idempotency guard below returns as
+        #    soon as `status` reads "stopped", which the first caller sets
+        #    BEFORE it has released the children; a second caller (the parent's
+        #    `stop()`, say) therefore used to return while the first was still
+        #    half-way through, and the grandchildren kept running after the
+        #    root's `stop()` had returned. Waiting for the lock makes "stopped"
+        #    mean "released" for every caller. It is re-entrant (a cyclic
+        #    actor graph re-enters on the same thread) and bounded (two
+        #    threads stopping the two ends of such a cycle must not deadlock).
+        acquired = self._stop_lock.acquire(timeout=_STOP_DRAIN_GRACE_SECONDS)
+        try:
+            self._stop_unlocked()
+        finally:
+            if acquired:
+                self._stop_lock.release()
+
+    def _stop_unlocked(self) -> None:
+        """The body of `stop()`; callers hold `_stop_lock`."""
         # 🚦 Idempotency check.
         #
         # 🏛️ `done` and `error` are terminal but NOT torn down: reaching a
